@@ -817,7 +817,7 @@ PTRef ArithLogic::mkMod(vec<PTRef> && args) {
 
 PTRef ArithLogic::mkIntDiv(vec<PTRef> && args) {
     checkSortInt(args);
-    assert(args.size() == 2);
+    if (args.size() != 2) { throw ApiException("Integer division requires exactly 2 arguments"); }
     PTRef dividend = args[0];
     PTRef divisor = args[1];
     if (not isConstant(divisor)) { throw LANonLinearException("Divisor must be constant in linear logic"); }
